@@ -74,7 +74,7 @@ class World:
                        "fault_unwinds_2_levels", "first_touch_at_depth_2", "apply_inside_context",
                        "dimension_mismatch_refused", "post_fault_ops_executed", "reenter_after_exit",
                        "object_is_context_operator_twice", "poke_inside_context", "secularize_inside_context",
-                       "deepcopy_inside_context", "convert_inside_context"]
+                       "deepcopy_inside_context", "convert_inside_context", "eso_at_inside_context"]
     required_faults = ["F1_simfault", "F2_refused_write", "F3_dimension_mismatch"]
     components = {
         "real": ["Manager basis stack / registration / flags", "eigenbasis_of.__enter__/__exit__", "BasisManaged",
@@ -114,9 +114,9 @@ class World:
         if not any(c in CONTEXT_CLASSES for c in classes):
             classes.append("SelfAdjoint")
         opkinds = ["enter", "enter", "exit", "exit", "create", "read", "read", "write", "poke", "protect", "unprotect",
-                   "apply", "copy", "secularize", "convert", "fault", "badwrite", "opapply", "opadd"]
+                   "apply", "copy", "secularize", "convert", "fault", "badwrite", "opapply", "opadd", "esoat"]
         if rng.random() < 0.5:
-            drop = rng.sample(["poke", "protect", "apply", "copy", "secularize", "convert", "fault", "badwrite", "opapply", "opadd"],
+            drop = rng.sample(["poke", "protect", "apply", "copy", "secularize", "convert", "fault", "badwrite", "opapply", "opadd", "esoat"],
                               rng.randint(1, 5))
             opkinds = [k for k in opkinds if k not in drop]
         faultfree = rng.random() < 0.35
@@ -940,6 +940,26 @@ class Runner:
         n = self.add_obj("Operator", res, {"data": ao.X0["data"] @ bo.X0["data"]}, ao.dim)
         self.ctx.ev(i, "opapply", a, b, n, self.depth)
         self.ctx.cov("opapply", ao.cls, bo.cls, self.depth)
+
+    def op_esoat(self, i, op):
+        """EvolutionSuperOperator.at(t) hands out the superoperator of one time as a new managed object."""
+        n = self.pick(op["k"], lambda o: o.cls == "EvSupOp" and o.protected_at is None)
+        if n is None:
+            return
+        o = self.pool[n]
+        if self.access_expected_refusal(o):
+            return
+        self.touch_probe(o)
+        ti = 1 + op["s"] % 2
+        try:
+            S = o.real.at(float(self.ta.data[ti]))
+        except Exception as e:
+            raise Violation("at-raises", "op %d: EvolutionSuperOperator.at at depth %d: %s: %s" % (i, self.depth, type(e).__name__, e))
+        m = self.add_obj("SuperOp", S, {"data": o.X0["data"][ti].copy()}, o.dim)
+        if self.depth >= 1:
+            self.ctx.probe("eso_at_inside_context")
+        self.ctx.ev(i, "esoat", n, m, ti, self.depth)
+        self.ctx.cov("esoat", self.depth)
 
     def op_opadd(self, i, op):
         a = self.pick(op["s"], lambda o: o.cls in ("Operator", "SelfAdjoint", "RDM") and o.protected_at is None)
